@@ -48,11 +48,9 @@ func (e *Enc) query(o *Obl, models bool) string {
 	}
 	b.WriteString("(set-logic ALL)\n")
 	b.WriteString(e.header())
-	for _, f := range e.facts {
-		if f.Ord < o.Ord {
-			b.WriteString(factText(f))
-			b.WriteString("\n")
-		}
+	for _, f := range e.relevantFacts(o) {
+		b.WriteString(factText(f))
+		b.WriteString("\n")
 	}
 	b.WriteString("(assert " + o.Guard.String() + ")\n")
 	if o.Kind != "cover" {
@@ -147,6 +145,13 @@ func solveAll(e *Enc, cfg *SolverCfg, tag string) {
 	for _, o := range all {
 		if o.Kind != "cover" && (o.Goal.IsTrue() || o.Guard.IsFalse()) {
 			o.Result, o.Solver = "unsat", "trivial"
+			if o.Kind == "callers" {
+				o.Solver = "engine(callgraph)"
+			}
+			continue
+		}
+		if o.Kind == "callers" {
+			o.Result, o.Solver = "sat", "engine(callgraph)"
 			continue
 		}
 		todo = append(todo, o)
@@ -338,4 +343,77 @@ func trimModel(out string) string {
 		m = m[:20000] + "\n...(truncated)"
 	}
 	return m
+}
+
+
+// relevantFacts: cone of influence of the obligation: facts (earlier than the
+// obligation) connected to the goal/guard through shared symbols.  Dropping
+// unconnected facts only weakens the premises, so a refutation stays valid.
+func (e *Enc) relevantFacts(o *Obl) []*Fact {
+	e.factVarsOnce.Do(func() {
+		e.factVars = make([]map[string]*Sort, len(e.facts))
+		for i, f := range e.facts {
+			m := map[string]*Sort{}
+			f.T.Vars(m)
+			if f.Guard != nil {
+				f.Guard.Vars(m)
+			}
+			collectFuns(f.T, m)
+			e.factVars[i] = m
+		}
+	})
+	want := map[string]*Sort{}
+	o.Goal.Vars(want)
+	o.Guard.Vars(want)
+	collectFuns(o.Goal, want)
+	n := 0
+	for n < len(e.facts) && e.facts[n].Ord < o.Ord {
+		n++
+	}
+	in := make([]bool, n)
+	for changed := true; changed; {
+		changed = false
+		for i := 0; i < n; i++ {
+			if in[i] {
+				continue
+			}
+			vs := e.factVars[i]
+			hit := len(vs) == 0
+			for v := range vs {
+				if _, ok := want[v]; ok {
+					hit = true
+					break
+				}
+			}
+			if hit {
+				in[i] = true
+				changed = true
+				for v, srt := range vs {
+					want[v] = srt
+				}
+			}
+		}
+	}
+	var out []*Fact
+	for i := 0; i < n; i++ {
+		if in[i] {
+			out = append(out, e.facts[i])
+		}
+	}
+	return out
+}
+
+// uninterpreted function symbols also connect facts
+func collectFuns(t *Term, into map[string]*Sort) {
+	if t.Op != "" && !isBuiltinOp(t.Op) && t.Op != "forall" && t.Op != "exists" && t.Op != "constarray" && len(t.Args) > 0 {
+		if strings.HasPrefix(t.Op, "fn$") || strings.HasPrefix(t.Op, "bv$") || strings.HasPrefix(t.Op, "box$") || strings.HasSuffix(t.Op, "_run") {
+			into["fun:"+t.Op] = t.S
+		}
+	}
+	for _, a := range t.Args {
+		collectFuns(a, into)
+	}
+	for _, p := range t.Pat {
+		collectFuns(p, into)
+	}
 }
